@@ -24,27 +24,33 @@ HeapFromView(w) ==
 
 Tags(w) == <<w.owners, w.memparent, w.memtab, w.calls, w.tdef>>
 
+\* every violated clause, abbreviated (TLC wraps wide tuples; the driver expands the names):
+\*   R:<exception> RoundTripCompletes   OU:<what> OriginalUntouched   T SameText   E:<component> Equal (content)
+\*   S:<tag set: ow owners, mp memparent, mt memtab, ca calls, td tdef> ScopesReattached   ST ScopesReattached (same types)   EQ / EH  Equal (__eq__ / __hash__)
 Judge(c) ==
   LET s1 == Unpickle(HeapFromView(c.o_before))
       dU == Diff(View(s1, "c"), c.u)
       dO == Diff(View(s1, "o"), c.o_after)
-      own == OwnChain(c.u, FALSE)
+      item(cond, name) == IF cond THEN name \o ";" ELSE ""
   IN
   IF OwnChain(c.o_before, FALSE) # "ok" THEN "Fixture:" \o OwnChain(c.o_before, FALSE)
-  ELSE IF c.raised # "" THEN "RoundTripCompletes:" \o c.raised
-  ELSE IF dO # "ok" THEN "OriginalUntouched:" \o dO
-  ELSE IF c.o_after.text # c.o_before.text \/ Tags(c.o_after) # Tags(c.o_before) THEN "OriginalUntouched:text-or-identities"
-  ELSE IF c.u.text # c.o_before.text THEN "SameText"
-  ELSE IF dU # "ok" THEN "Equal:" \o dU
-  ELSE IF own # "ok" THEN "ScopesReattached:" \o own
-  ELSE IF c.types_u # c.types_o THEN "ScopesReattached:types"
-  ELSE IF ~c.equal THEN "Equal:__eq__"
-  ELSE IF ~c.hasheq THEN "Equal:__hash__"
-  ELSE "ok"
+  ELSE IF c.raised # "" THEN "R:" \o c.raised \o ";"
+  ELSE item(dO # "ok", "OU:" \o dO)
+       \o item(dO = "ok" /\ (c.o_after.text # c.o_before.text \/ Tags(c.o_after) # Tags(c.o_before)), "OU:ids")
+       \o item(c.u.text # c.o_before.text, "T")
+       \o item(dU # "ok", "E:" \o dU)
+       \o item(~(ToSet(c.u.owners) \subseteq {"self"}), "S:ow")
+       \o item(~(ToSet(c.u.memparent) \subseteq {"self"}), "S:mp")
+       \o item(~(ToSet(c.u.memtab) \subseteq {"own"}), "S:mt")
+       \o item(~(ToSet(c.u.calls) \subseteq {"own"}), "S:ca")
+       \o item(~(ToSet(c.u.tdef) \subseteq {"own"}), "S:td")
+       \o item(c.types_u # c.types_o, "ST")
+       \o item(~c.equal, "EQ")
+       \o item(~c.hasheq, "EH")
 
 Init_ == tid = 1 /\ st = NoEv /\ ev = NoEv
 Next_ == /\ tid <= Len(Cases)
-         /\ LET c == Cases[tid]  j == Judge(c) IN PrintT(<<"VERDICT", c.id, j = "ok", j, 0>>)
+         /\ LET c == Cases[tid]  j == Judge(c) IN PrintT(<<"VERDICT", c.id, j = "", IF j = "" THEN "ok" ELSE j, 0>>)
          /\ tid' = tid + 1 /\ UNCHANGED <<st, ev>>
 TraceSpec == Init_ /\ [][Next_]_tvars
 =============================================================================
